@@ -35,7 +35,7 @@ Definition d_wrow : dec (Z * (Z * Z)) := d_pair d_z (d_pair d_z d_z).
 
 (* 0501: gates, want-flags, cond-look, rune rows, category table, tree  ->  the tree under that gate mask;
    with want-flags also: the model with strict 1 / 2 / 4 / 8 / lite gives the same tree, fo_wf of the input tree,
-   the model with strict 7 and lite (the one the theorem is about) gives the same tree *)
+   the model with strict 15 and lite (the one the theorem is about) gives the same tree *)
 Definition run_fo_d (dflt : bool) (args : list Z) : list Z :=
   match (dlet g <- d_z ; dlet want <- d_bool ; dlet cl <- d_bool ;
          dlet rows <- d_list d_wrow ;
@@ -55,7 +55,7 @@ Definition run_fo_d (dflt : bool) (args : list Z) : list Z :=
       e_res e_rnode r ++
       (if want then e_bool (res_rnode_eqb r (run 1 false)) ++ e_bool (res_rnode_eqb r (run 2 false)) ++
                     e_bool (res_rnode_eqb r (run 4 false)) ++ e_bool (res_rnode_eqb r (run 8 false)) ++
-                    e_bool (res_rnode_eqb r (run 0 true)) ++ e_bool (fo_wf t) ++ e_bool (res_rnode_eqb r (run 7 true))
+                    e_bool (res_rnode_eqb r (run 0 true)) ++ e_bool (fo_wf t) ++ e_bool (res_rnode_eqb r (run 15 true))
        else [])
   | _ => bad_case
   end.
